@@ -39,8 +39,9 @@ ASSUMPTIONS = [
     "'kb' with |k| > 1 from a t0 that is a Saturday/Sunday: the statement says 'every k-th' of the weekdays between the end points but t0 itself is not "
     'in that list, so any of the |k| possible offsets is accepted (from a weekday t0, and for |k| = 1, the list is compared exactly)',
     'elements are compared with == (a pd.Timestamp equal to the datetime would pass); the result must be a list',
-    'at most 40 violations are recorded per case; after two calls that did not return within the guard the remaining wrong-direction calls of the '
-    'case are skipped (the verdict is already a violation)',
+    'every call runs under a private watchdog of 2 s (a call normally takes < 1 ms): not coming back in time is reported as no-return, whatever the '
+    'call would have done later; after two such calls the rest of the case is abandoned, and at most 40 violations are recorded per case (the '
+    'verdict is a violation either way)',
 ]
 EXPLANATION = ('start days 2023-12-20..2024-03-10 (year end, leap February, every weekday) x both directions x every end point 0..70 days away '
                '(+ 1y / 3y for month-based bumps, + hour / minute / second grids for intraday bumps) x every bump of the alphabet incl. the ones '
@@ -58,7 +59,7 @@ ALT_LONG = ['+1m', '-1M', '1M1D', '+1Y', '-2Q']
 TODS_DAY = [[0, 0, 0, 0], [9, 30, 0, 0]]
 TODS_INTRADAY = [[0, 0, 0, 0], [22, 30, 0, 0]]
 CAP = 40
-GUARD_S = 5.0
+GUARD_S = 2.0
 CAL_EVERY = 4            # Calendar.drange is compared on every 4th end point
 
 _PART = re.compile(r'([+-]?[0-9]+)([a-z])')
@@ -317,10 +318,10 @@ def sweep(out, rec, state, drange, cal, t0, d, group, ends, bumps):
             if cal is not None and b.sem != 'b' and ei % CAL_EVERY == 0:
                 calls.append(('Calendar.drange', lambda: cal.drange(t0, t1, b.arg)))
             for via, f in calls:
-                if dcls == 'wrong-direction' and state['hangs'] >= 2:
-                    out.cls('skipped-after-hangs')
-                    continue
-                st, r = _run(f, guard=dcls == 'wrong-direction')
+                if state['hangs'] >= 2:
+                    out.cls('aborted-after-two-calls-without-return')
+                    return
+                st, r = _run(f, guard=True)
                 out.call()
                 if via == 'drange':
                     outcomes[b.name] = (st, r)
@@ -391,7 +392,7 @@ def check(case):
     month_ok = midnight and day.day <= 28
     cal = Calendar('c10-no-holidays')          # the constructor does not touch the `calendars` registry
     for group, M in case['groups']:
-        if group == 'long' and not month_ok:
+        if (group == 'long' and not month_ok) or state['hangs'] >= 2:
             continue
         bumps = bumps_for(group, month_ok)
         ends = endpoints(group, M, t0, d)
